@@ -431,12 +431,28 @@ func runRewrite(c RewriteCase) *pbt.Result {
 	gpack.ResetAux()
 	p, recs := build(c.Pack)
 	s2 := rfl.NewStream(nil, c.Seed2, 400)
-	changed := 0
+	changed, refilled := 0, 0
 	for round := 0; round <= c.Times; round++ {
 		if round > 0 {
 			changed += refillScalars(p, s2)
 			if zp, ok := p.(*pack.ZipPack); ok && zp.Status > 2 {
 				zp.Status %= 3
+			}
+			// a sender keeps one zip pack per target and fills it again for the next interval (seed C05-s24): the
+			// new records replace the old ones
+			if zp, ok := p.(*pack.ZipPack); ok && s2.Intn(2) == 0 {
+				var inner []pack.Pack
+				var raw []byte
+				for k := s2.Intn(4); k > 0; k-- {
+					ip, _ := build(gpack.Case{Type: []string{"ParamPack", "EventPack", "LogSinkPack", "TagCountPack"}[s2.Intn(4)], Seed: uint64(s2.Int64()), Len: 40})
+					inner = append(inner, ip)
+					raw = append(raw, pack.ToBytesPack(ip)...)
+				}
+				zp.SetRecords(inner)
+				refilled++
+				if zp.RecordCount != len(inner) || !bytes.Equal(zp.Records, raw) {
+					return pbt.Fail("ZipPack filled again with SetRecords(%d packs, %d bytes encoded) before encoding number %d: RecordCount = %d, Records holds %d bytes", len(inner), len(raw), round+1, zp.RecordCount, len(zp.Records))
+				}
 			}
 		}
 		w := ref.NewW()
@@ -452,12 +468,16 @@ func runRewrite(c RewriteCase) *pbt.Result {
 			return pbt.Fail("%s, encoding number %d of the same object (its scalar fields were given new values before each re-encoding): bytes differ from the reference encoder at offset %d (golib …%x, reference …%x)", c.Pack.Type, round+1, k, clip(got, k), clip(want, k))
 		}
 	}
-	return &pbt.Result{NT: changed > 0, Classes: []string{"type=" + c.Pack.Type}}
+	cls := []string{"type=" + c.Pack.Type}
+	if refilled > 0 {
+		cls = append(cls, "zip-pack-filled-again")
+	}
+	return &pbt.Result{NT: changed > 0, Classes: cls}
 }
 
 var specRewrite = pbt.Register(pbt.Spec[RewriteCase]{
 	Prop: "C05", Name: "encode-change-encode",
-	Rule:  "a pack of one of the eight covered types is encoded, then 1-3 times every exported scalar field (header included; maps, lists and byte blocks are left alone) gets a new value and the same object is encoded again; every encoding must equal the reference encoder's bytes for the object's fields at that moment (nothing a previous encoding computed may be written again); non-trivial = at least one scalar field changed; distinct by case",
+	Rule:  "a pack of one of the eight covered types is encoded, then 1-3 times every exported scalar field (header included; maps, lists and byte blocks are left alone) gets a new value - a zip pack is, every other time, also filled again with SetRecords (0-3 new inner packs, which replace the old ones) - and the same object is encoded again; every encoding must equal the reference encoder's bytes for the object's fields at that moment (nothing a previous encoding computed may be written again); non-trivial = at least one scalar field changed; distinct by case",
 	Quick: 2500, Thorough: 120000,
 	Draw: func(t *rapid.T) RewriteCase {
 		names := []string{}
